@@ -18,17 +18,25 @@ var loopFuncs = map[string]loopFunc{
 }
 
 func funcIndex(s *state, key string) data.Value {
-	return s.context.lookup(key + "__index")
+	return s.context.lookup(key + loopIndexSuffix)
 }
 
 func funcIsFirst(s *state, key string) data.Value {
-	return data.Bool(s.context.lookup(key+"__index").(data.Int) == 0)
+	return data.Bool(s.context.lookup(key+loopIndexSuffix).(data.Int) == 0)
 }
 
 func funcIsLast(s *state, key string) data.Value {
 	return data.Bool(
-		s.context.lookup(key+"__index").(data.Int) == s.context.lookup(key+"__lastIndex").(data.Int))
+		s.context.lookup(key+loopIndexSuffix).(data.Int) == s.context.lookup(key+loopLastIndexSuffix).(data.Int))
 }
+
+// The position of a loop is kept in the loop's frame under names no template
+// variable can have ('#' is not an identifier character), so that a variable
+// called e.g. $x__index cannot collide with the bookkeeping of a loop over $x.
+const (
+	loopIndexSuffix     = "#index"
+	loopLastIndexSuffix = "#lastIndex"
+)
 
 // Func represents a Soy function that may be invoked within a Soy template.
 type Func struct {
